@@ -36,6 +36,7 @@ import (
 	"os/exec"
 	"regexp"
 	"runtime"
+	"runtime/debug"
 	"sort"
 	"strconv"
 	"strings"
@@ -70,6 +71,10 @@ var (
 )
 
 const workerEnv = "VERIF_C15_WORKER"
+
+// allocation bound of DESIGN §4 with the whole-cascade constant enlarged for the HTTP client
+const allocMul = 256
+const allocC0 = 8 << 20
 
 // ---------- results passed from the worker to the parent --------------------
 
@@ -287,6 +292,9 @@ func (w *workerProc) run(i int, guard time.Duration) (res *result, crashed bool,
 		if l.err != nil {
 			w.cmd.Wait()
 			log = w.stderr.String()
+			if w.cmd.ProcessState != nil {
+				log += "\n[worker exit: " + w.cmd.ProcessState.String() + "]"
+			}
 			w.in.Close()
 			w.outF.Close()
 			w.cmd = nil
@@ -354,6 +362,7 @@ func TestCheck(t *testing.T) {
 	defer r.Done()
 	p := makePlan(r.Env, os.Getenv("VERIF_PART"))
 	r.Note("timing_rule", "contact at virtual T is refuted iff T < previous contact + max(5 min, smallest interval validly announced in the replies to that contact); intervals > 2^33 s excluded")
+	r.Note("alloc_bound", fmt.Sprintf("bytes allocated in the worker process during one HTTP Announce (runtime.MemStats.TotalAlloc delta) <= %d*(reply bytes of both families) + %d", allocMul, allocC0))
 	r.Note("dual_family_host", "v46.test answered A=127.0.0.1 AAAA=::1 by an in-process DNS answerer (net.DefaultResolver.Dial)")
 	w := &workerProc{}
 	defer w.stop()
@@ -371,6 +380,9 @@ func TestCheck(t *testing.T) {
 		}
 		res, crashed, hung, log := w.run(i, guard)
 		switch {
+		case crashed && !crashRe.MatchString(log) && strings.Contains(log, "signal: killed"):
+			// no Go crash report and SIGKILL: the kernel's OOM killer or an operator, not an observation
+			c.Inconclusive("worker process was killed (SIGKILL) without a crash report")
 		case crashed:
 			msg, frame, excerpt := crashSite(log)
 			c.Count("crashes", 1)
@@ -412,6 +424,7 @@ func workerMain(t *testing.T) {
 	env := vk.LoadEnv()
 	p := makePlan(env, os.Getenv("VERIF_PART"))
 	installDNS()
+	debug.SetMemoryLimit(1 << 30)
 	// started outside any bubble: httpclient's expiry goroutine, resolver state
 	httpclient.Get("", "")
 	httpclient.Get("tcp4", "")
@@ -1589,7 +1602,12 @@ func genHTTPReply(rng *rand.Rand, class string) *genReply {
 		g.Body = validBody()
 	case "strlen>body":
 		p4 := rndPeers4(rng, 2)
-		n := vk.Pick(rng, []int64{13, 100, 1 << 16, 1 << 20, 1 << 24, 1 << 30, 1<<31 - 1, 1 << 31, 1 << 40, 1<<63 - 1})
+		// zeebo/bencode allocates the declared length before reading: keep the
+		// gigabyte sizes rare, 16 children share the machine
+		n := vk.Pick(rng, []int64{13, 100, 1 << 16, 1 << 20, 1 << 24, 1 << 26, 1 << 27, 1 << 31, 1 << 40, 1<<63 - 1})
+		if rng.IntN(50) == 0 {
+			n = vk.Pick(rng, []int64{1 << 30, 1<<31 - 1})
+		}
 		k := vk.Pick(rng, []string{"peers", "peers6", "failure reason", "zz", "retry in"})
 		g.Body = []byte(fmt.Sprintf("d8:intervali1800e%s%d:%se", bstr(k), n, compactOf(p4)))
 		g.Embedded = p4
@@ -1978,9 +1996,16 @@ func (h *httpSpec) run(t *testing.T, res *result) {
 			}
 		}()
 	}
+	var ms0, ms1 runtime.MemStats
+	runtime.ReadMemStats(&ms0)
 	aerr, returned := announceGuarded(tr, context.Background(), col, 70*time.Second)
+	runtime.ReadMemStats(&ms1)
 	pollStop.Store(true)
 	pwg.Wait()
+	alloc := int64(ms1.TotalAlloc - ms0.TotalAlloc)
+	if alloc > 64<<20 {
+		debug.FreeOSMemory()
+	}
 	if !returned {
 		res.Inconcl = "Announce did not return within the wall-clock guard"
 		return
@@ -2017,6 +2042,22 @@ func (h *httpSpec) run(t *testing.T, res *result) {
 		rep[fmt.Sprintf("body%d_hex", 4+2*f)] = fmt.Sprintf("%x", clip(h.R[f].Body, 600))
 	}
 	outcomes := judgeHTTP(res, served, learnt, rep, true)
+	// allocation bound (DESIGN §4): bytes allocated during the call <= 256 * reply bytes + C0
+	replyBytes := int64(0)
+	for _, g := range served {
+		replyBytes += int64(len(g.Body))
+	}
+	bound := allocMul*replyBytes + allocC0
+	if res.Max == nil {
+		res.Max = map[string]int64{}
+	}
+	res.Max["max:alloc_bytes_one_announce"] = alloc
+	if alloc > bound {
+		// C15's statement has no memory clause (errors, exactly the encoded peers, no crash, no stuck
+		// busy state, contact discipline), so an attacker-sized allocation in the bencode dependency is
+		// only counted here; the per-message bound is judged where the statement has it (C04, C05).
+		res.count("announces_above_alloc_bound_observed", 1)
+	}
 	if st == tracker.Busy {
 		res.violation("stuck-busy", "stuck-busy http after="+errClass(aerr), "GetState()==Busy after Announce returned "+fmt.Sprint(aerr), rep)
 	}
